@@ -655,6 +655,17 @@ class Gen:
 
 # ----------------------------------------------------------------------------- rendering
 
+def long_prefix_family(rng):
+    """distinct names that agree on a LONG prefix (N bytes, N around powers of two) and differ only at the end: two simple
+    names, two common names, two proper names of many words differing in the last word"""
+    n = rng.choice([8, 15, 16, 17, 31, 32, 33, 62, 63, 64, 65, 70, 127, 128, 129, 255, 256, 257])
+    stem = ''.join(rng.choice('bcdfgjklmpqvwxz') for _ in range(n))
+    words = max(2, n // 5)
+    pw = [''.join(rng.choice('bcdfgjklmpqvwxz') for _ in range(4)).capitalize() for _ in range(words)]
+    return [('simple', stem + 'b'), ('simple', stem + 'c'), ('common', 'the', stem + 'b'), ('common', 'the', stem + 'c'),
+            ('proper', pw + ['Zab']), ('proper', pw + ['Zac'])]
+
+
 class Speller:
     """Renders a tree as source text, choosing aliases, case, gaps, optional words."""
 
